@@ -25,4 +25,10 @@ let () =
         let s = Conv.bytes_of_hex h in
         Stdlib.Printf.printf "lanes\t%s\t%s\t%s\n" (Conv.string_of_n (Blocked.lanes_mask Blocked.needs_quote (nat_of_int 16) s))
           (Conv.string_of_n (Blocked.lanes_mask Blocked.needs_quote (nat_of_int 32) s)) (Conv.string_of_n (Blocked.mask Blocked.needs_quote s))
+    | ["qcap"; h; cap] ->
+        (* memcchr_quote with a destination capacity: F k = found / end at k, U k = destination full after k bytes *)
+        let s = Conv.bytes_of_hex h and c = nat_of_int (int_of_string cap) in
+        let show r = match r with QuoteCap.Found k -> Stdlib.Printf.sprintf "F\t%d" (int_of_nat k) | QuoteCap.Full k -> Stdlib.Printf.sprintf "U\t%d" (int_of_nat k) in
+        Stdlib.Printf.printf "qcap\t%s\t%s\n" (show (QuoteCap.memcchr_quote_avx2 Blocked.needs_quote (nat_of_int 16) s c))
+          (show (QuoteCap.memcchr_quote_sse Blocked.needs_quote (nat_of_int 16) s c))
     | _ -> Stdlib.Printf.printf "bad\t%s\n" line)
